@@ -27,6 +27,8 @@ class Evaluator:
         return t
 
     def wrap(self, v, ct):
+        if not isinstance(v, int):
+            return v
         t = self.tinfo(ct)
         if t is None:
             return v
@@ -42,26 +44,48 @@ class Evaluator:
         return v
 
     def lkey(self, n):
-        """key of an lvalue expression, evaluating subscripts"""
+        """key of an lvalue expression: subscripts are evaluated; in heap mode `p->f` is keyed by the value of p"""
         f = self.f
         n = f.strip(n, casts=False)
+        while n is not None and n["k"] in CAST_KINDS and n.get("ck") in ("NoOp", "ArrayToPointerDecay", "BitCast") and n.get("c"):
+            n = f.strip(n["c"][0], casts=False)
         if n["k"] == "ArraySubscriptExpr":
-            base = render(f, f.node(n["base"]))
+            bn = f.node(n["base"])
+            try:
+                base = self.lkey(bn)
+            except Unknown:
+                base = render(f, bn)
             idx = self.ev(f.node(n["idx"]))
+            if getattr(self, "heap_mode", False) and base in self.env and isinstance(self.env[base], int) and not base.endswith("]"):
+                # pointer variable used as an array: key by the pointer's value
+                return "@%d[%d]" % (self.env[base], idx)
             return "%s[%d]" % (base, idx)
         if n["k"] == "UnaryOperator" and n.get("op") == "*":
             return "*" + render(f, n["c"][0])
-        if getattr(self, "heap_mode", False) and n["k"] == "MemberExpr" and n.get("arrow") and n.get("base") is not None:
-            base = f.strip(f.node(n["base"]))
-            if base is not None and base["k"] != "CXXThisExpr":
-                try:
-                    v = self.ev(f.node(n["base"]))
-                except Unknown:
-                    v = None
-                if isinstance(v, int):
-                    if v == 0:
-                        raise Unknown("null dereference: %s" % render(f, n))
-                    return "@%d.%s" % (v, n["name"])
+        if n["k"] == "MemberExpr" and n.get("base") is not None:
+            bn = f.node(n["base"])
+            base = f.strip(bn)
+            if base is not None and base["k"] == "CXXThisExpr":
+                return n["name"]
+            if n.get("arrow"):
+                if getattr(self, "heap_mode", False):
+                    try:
+                        v = self.ev(bn)
+                    except Unknown:
+                        v = None
+                    if isinstance(v, int):
+                        if v == 0:
+                            raise Unknown("null dereference: %s" % render(f, n))
+                        return "@%d.%s" % (v, n["name"])
+                    if isinstance(v, str):
+                        return "%s.%s" % (v, n["name"])
+                    if isinstance(v, tuple):
+                        return "%s[%d].%s" % (v[1], v[2], n["name"])
+                return render(f, n)
+            try:
+                return "%s.%s" % (self.lkey(bn), n["name"])
+            except Unknown:
+                return render(f, n)
         return render(f, n)
 
     def ev(self, n):
@@ -134,10 +158,15 @@ class Evaluator:
                 if key not in self.env:
                     raise Unknown(key)
                 old = self.env[key]
-                new = self.wrap(old + (1 if op == "++" else -1), n.get("ct"))
+                if isinstance(old, tuple):
+                    new = (old[0], old[1], old[2] + (1 if op == "++" else -1))
+                else:
+                    new = self.wrap(old + (1 if op == "++" else -1), n.get("ct"))
                 self.env[key] = new
                 self.stores.append((key, new))
                 return old if n.get("postfix") else new
+            if op == "&" and getattr(self, "heap_mode", False):
+                return self.lkey(n["c"][0])
             v = self.ev(n["c"][0])
             if op == "!":
                 return 0 if v else 1
@@ -200,10 +229,18 @@ class Evaluator:
             if inl and nm in inl and n.get("callee") and n["callee"]["mn"] in self.prog.functions:
                 g = self.prog.functions[n["callee"]["mn"]]
                 args = [self.ev(a) for a in f.args(n)]
-                sub = Evaluator(self.prog, g, env={q["name"]: self.wrap(v, q["ct"]) if isinstance(v, int) else v for q, v in zip(g.params, args)}, calls=self.calls)
+                pnames = {q["name"] for q in g.params}
+                senv = {k: v for k, v in self.env.items() if k not in pnames}
+                senv.update({q["name"]: self.wrap(v, q["ct"]) if isinstance(v, int) else v for q, v in zip(g.params, args)})
+                sub = Evaluator(self.prog, g, env=senv, calls=self.calls)
                 sub.inline = inl
                 sub.pass_object = getattr(self, "pass_object", False)
+                sub.heap_mode = getattr(self, "heap_mode", False)
                 sub.run_blocks(g.entry, max_steps=500)
+                for sk, sv in sub.stores:
+                    if sk.startswith("@") or "." in sk or "[" in sk or (sk in self.env and sk not in pnames):
+                        self.env[sk] = sv
+                        self.stores.append((sk, sv))
                 if getattr(sub, "wraps", None):
                     if not hasattr(self, "wraps"):
                         self.wraps = []
@@ -218,6 +255,19 @@ class Evaluator:
         raise Unknown(k)
 
     def _bin(self, op, a, b, ct):
+        if isinstance(a, tuple) or isinstance(b, tuple):
+            # symbolic element pointers ("ptr", base key, index)
+            if isinstance(a, tuple) and isinstance(b, int) and op in ("+", "-"):
+                return (a[0], a[1], a[2] + (b if op == "+" else -b))
+            if isinstance(b, tuple) and isinstance(a, int) and op == "+":
+                return (b[0], b[1], b[2] + a)
+            if isinstance(a, tuple) and isinstance(b, tuple) and a[1] == b[1]:
+                if op == "-": return a[2] - b[2]
+                if op in ("==", "!=", "<", ">", "<=", ">="):
+                    return self._bin(op, a[2], b[2], "int")
+            if op in ("==", "!=") and (a == 0 or b == 0):
+                return 1 if (op == "!=") else 0
+            raise Unknown("pointer arithmetic %s" % op)
         if isinstance(a, float) or isinstance(b, float):
             a, b = float(a), float(b)
             if op == "+": return a + b
